@@ -79,9 +79,11 @@ func (line *Line) Target() string {
 func (line *Line) Public() bool {
 	switch line.Cmd {
 	case PRIVMSG, NOTICE, ACTION:
-		switch line.Args[0][0] {
-		case '#', '&', '+', '!':
-			return true
+		if len(line.Args) > 0 && len(line.Args[0]) > 0 {
+			switch line.Args[0][0] {
+			case '#', '&', '+', '!':
+				return true
+			}
 		}
 	case CTCP, CTCPREPLY:
 		// CTCP prepends the CTCP verb to line.Args, thus for the message
@@ -90,9 +92,11 @@ func (line *Line) Public() bool {
 		// TODO(fluffle): Arguably this is broken, and we should have
 		// line.Args containing: []string{"#foo", "BAR", "baz"}
 		// ... OR change conn.Ctcp()'s argument order to be consistent.
-		switch line.Args[1][0] {
-		case '#', '&', '+', '!':
-			return true
+		if len(line.Args) > 1 && len(line.Args[1]) > 0 {
+			switch line.Args[1][0] {
+			case '#', '&', '+', '!':
+				return true
+			}
 		}
 	}
 	return false
